@@ -11,6 +11,11 @@ open UtilModel
 theorem runs_step (s s' : St) (e : Ev) (hs : step s e = some s') :
     s'.runs = s.runs ∨ ∃ j g i k d, e = .cbin j g i k d ∧ s'.runs = s.runs ++ [(g, i)] := by
   cases e with
+  | cancelroot =>
+    simp only [step] at hs
+    split at hs
+    · simp at hs; subst hs; exact Or.inl (sameBut_cancelAll _).runs
+    · simp at hs
   | nilnext k =>
     simp only [step] at hs
     split at hs
@@ -33,7 +38,7 @@ theorem runs_step (s s' : St) (e : Ev) (hs : step s e = some s') :
     split at hs
     · rename_i op hc
       simp at hs; subst hs
-      exact Or.inl (runs_execOp s op)
+      exact Or.inl ((runs_execOp (preOp s op) op).trans (preOp_fields s op).2.2.2.1)
     · simp at hs
   | ctor k d =>
     simp only [step] at hs
@@ -166,7 +171,7 @@ theorem genOr_step (s s' : St) (e : Ev) (m : M6o) (k g : Nat) (hO : Sim6 s m) (h
     split at hs
     · rename_i op hp
       simp at hs
-      have hkey : s'.key k = (execOp s op).1.key k := by subst hs; rfl
+      have hkey : s'.key k = (execOp (preOp s op) op).1.key k := by subst hs; rfl
       have hpres : ∃ r, s.key k = some r := by
         cases hO.2 with
         | rest _ hc _ => rw [hc] at hp; simp [pendingOp] at hp
@@ -178,7 +183,7 @@ theorem genOr_step (s s' : St) (e : Ev) (m : M6o) (k g : Nat) (hO : Sim6 s m) (h
       obtain ⟨r, hr⟩ := hpres
       intro r' hr'
       rw [hkey] at hr'
-      rw [gk_execOp s op k r r' hr hr']
+      rw [gk_execOp (preOp s op) op k r r' (by rw [preOp_key]; exact hr) hr']
       exact hG r hr
     · simp at hs
   · exact genOr_rem (rem_step s s' e hs (fun id h => hex ⟨id, h⟩)) k g hG
